@@ -90,7 +90,12 @@ fn response_case(rng: &mut Rng, all: bool, rec: &mut Rec) {
     let lane = crate::core::lane_mode();
     let limit = if lane { *rng.pick(&[0usize, 1, 4]) } else { *rng.pick(&LIMITS) };
     let nf = pick_nfields(rng, limit);
-    let truth = gen_resp_head(rng, nf, false);
+    let mut truth = gen_resp_head(rng, nf, false);
+    if rng.chance(1, 6) {
+        // to a parser that stands alone a 100 is a status like any other, with or without fields
+        truth.status = 100;
+        rec.cov(&format!("response/status-100/N={}", limit));
+    }
     let head = truth.render();
     let hlen = head.len();
     let mut stream = head.clone();
@@ -353,7 +358,7 @@ impl Property for P {
         "C20"
     }
     fn rule(&self) -> String {
-        "generated request and response heads (0..N+2 fields for N in {0,1,4,128}, random token names, whitespace variants, empty values, obs-text, every standard method and several target forms) rendered from a structure and followed by an arbitrary tail. try_parse_response / try_parse_request: complete head within the limit -> exactly (|H|, method|status, version, fields); above the limit -> HttpParseTooManyHeaders; every strict prefix (all for heads <= 700 bytes or thorough; boundaries +-2 otherwise) -> incomplete (or the limit error once it is exceeded), never complete, never another error. try_parse_partial_response on every prefix of a head within the limit: never an error; reported status/version right; every reported field is one the head contains and its whole line lies inside the prefix. class = parser x N x field count vs N x token class of the cut.".into()
+        "generated request and response heads (0..N+2 fields for N in {0,1,4,128}, random token names, whitespace variants, empty values, obs-text, every standard method and several target forms; one response in six is a 100) rendered from a structure and followed by an arbitrary tail. try_parse_response / try_parse_request: complete head within the limit -> exactly (|H|, method|status, version, fields); above the limit -> HttpParseTooManyHeaders; every strict prefix (all for heads <= 700 bytes or thorough; boundaries +-2 otherwise) -> incomplete (or the limit error once it is exceeded), never complete, never another error. try_parse_partial_response on every prefix of a head within the limit: never an error; reported status/version right; every reported field is one the head contains and its whole line lies inside the prefix. class = parser x N x field count vs N x token class of the cut.".into()
     }
     fn assumptions(&self) -> Vec<String> {
         vec![
